@@ -423,6 +423,15 @@ class DAGRunConcurrentManager(DAGRunManagerLike):
         """
 
         node_predecessors = set(self.dag.graph.predecessors(node_id))
+
+        if not dag.is_recurrent:
+            # The cases of a switch are executed by the switch itself and only the selected one. A case that belongs
+            # to the dag for another reason (it is also consumed directly) is not a dependency of the switch node.
+            node_predecessors = {
+                pred_node_id for pred_node_id in node_predecessors
+                if not self.dag.graph.edges[pred_node_id, node_id].get(EdgeField.case_branch)
+            }
+
         current_dag = set(nx.topological_sort(dag))
 
         return current_dag.intersection(node_predecessors)
